@@ -2,8 +2,10 @@ import FiberModel.DriverUtil
 import FiberModel.C16.Spec
 /-
 Driver for C16. Case fields (after the id):
-  backend(st|mem|ss|sm) extractor single(0/1) idle(secs) trusted(hexlist) ops obs
-see harness/cmd/c16/main.go for the op and observation syntax.
+  backend(st|mem|ss|sm) extractor single(0/1) idle(secs) trusted(hexlist) front ops urlFacts obs
+see harness/cmd/c16/main.go for the op and observation syntax. `urlFacts` and the (ok, scheme, host)
+triples inside the ops are the answers of the real `net/url.Parse`; the driver compares each with the
+transcription `C19.Url.parse` the model runs on (a difference is reported as a model difference).
 -/
 open B DriverUtil C16
 
@@ -22,32 +24,44 @@ def parseUrl (ok sch host : String) : Except String UrlInfo := do
   if ok != "0" && ok != "1" then throw "outside-domain: url ok flag"
   pure { ok := ok == "1", scheme := ← hx sch, host := ← hx host }
 
-def parseOp (ext : Ext) (faultsOK : Bool) (s : String) : Except String Op := do
+/-- header text: printable ASCII, tab, DEL (what the in-process request carries unchanged) -/
+def headerSafe (s : Bytes) : Bool := s.all fun c => (32 ≤ c && c < 128) || c == 9
+
+/-- an op, and (if any) the header on which the transcription of `url.Parse` disagrees with the
+    answer of the real one that the harness shipped -/
+def parseOp (ext : Ext) (faultsOK : Bool) (s : String) : Except String (Op × Option String) := do
   match s.splitOn ":" with
   | ["a", n] =>
     match n.toNat? with
-    | some d => if d > 100000 then throw "outside-domain: advance" else pure (.adv d)
+    | some d => if d > 100000 then throw "outside-domain: advance" else pure (.adv d, none)
     | none => throw "outside-domain: advance"
-  | ["r", m, ck, sc, hdr, qry, form, param, custom, og, ook, osch, ohost, rf, rok, rsch, rhost, host, https, del, faults] =>
+  | ["r", m, ck, sc, hdr, qry, form, param, custom, og, ook, osch, ohost, rf, rok, rsch, rhost, host, https, del, faults, skip] =>
     let me := b m
     if !(["GET", "HEAD", "OPTIONS", "TRACE", "POST", "PUT", "DELETE", "PATCH"].contains m) then
       throw "outside-domain: method"
     let q : Req := {
       method := me, ck := ← hx ck, sc := ← hx sc, hdr := ← hx hdr, qry := ← hx qry, form := ← hx form,
-      param := ← hx param, custom := ← hx custom, origin := ← hx og, ourl := ← parseUrl ook osch ohost,
-      referer := ← hx rf, rurl := ← parseUrl rok rsch rhost, host := ← hx host,
-      https := https == "1", del := del == "1",
+      param := ← hx param, custom := ← hx custom, origin := ← hx og,
+      referer := ← hx rf, host := ← hx host,
+      https := https == "1", del := del == "1", skip := skip == "1",
       failGet := faults.contains 'g', failSet := faults.contains 's', failDel := faults.contains 'd' }
     if https != "0" && https != "1" then throw "outside-domain: https flag"
     if del != "0" && del != "1" then throw "outside-domain: del flag"
+    if skip != "0" && skip != "1" then throw "outside-domain: skip flag"
     if !(faults == "-" || faults.all fun c => c == 'g' || c == 's' || c == 'd') then throw "outside-domain: faults"
     if faults != "-" && !faultsOK then throw "outside-domain: faults on this back-end"
     if q.host = [] then throw "outside-domain: empty Host"
-    if !(isAscii q.origin && isAscii q.referer && isAscii q.host) then throw "outside-domain: non-ascii header"
+    if !(headerSafe q.origin && headerSafe q.referer && isAscii q.host) then throw "outside-domain: non-ascii header"
+    let ou ← parseUrl ook osch ohost
+    let ru ← parseUrl rok rsch rhost
+    let bad : Option String :=
+      if q.ourl != ou then some s!"url-parse-differs:{toHexField (toLower q.origin)}"
+      else if q.rurl != ru then some s!"url-parse-differs:{toHexField (toLower q.referer)}"
+      else none
     if !(tokenSafe q.ck && tokenSafe q.sc && tokenSafe q.hdr && tokenSafe q.qry && tokenSafe q.form &&
          tokenSafe q.param && tokenSafe q.custom) then throw "outside-domain: token alphabet"
     if ext = .param && q.param = [] then throw "outside-domain: empty route parameter"
-    pure (.req q)
+    pure (.req q, bad)
   | _ => throw "outside-domain: malformed op"
 
 def optTok : Option Bytes → String
@@ -78,9 +92,19 @@ def firedStr (r : Resp) : String :=
   let s := (if r.fg then "g" else "") ++ (if r.fs then "s" else "") ++ (if r.fd then "d" else "")
   if s.isEmpty then "-" else s
 
+def sameSiteStr : SameSite → String
+  | .lax => "lax" | .strict => "strict" | .none => "none" | .disabled => "disabled"
+
+def renderAttrs : Option CookieAttrs → String
+  | none => "-"
+  | some a =>
+    s!"{toHexField a.domain}~{toHexField a.path}~{if a.secure then 1 else 0}{if a.httpOnly then 1 else 0}~" ++
+    s!"{sameSiteStr a.sameSite}~{match a.expires with | none => "none" | some e => toString e}"
+
 def renderResp (mem : Bool) (cfg : Cfg) (st : St) (r : Resp) : String :=
   s!"{if r.pass then 1 else 0},{r.status},{optTok r.ck},{match r.sc with | none => "none" | some v => toHex v}," ++
-  s!"{plusList r.gens},{plusList r.sgens},{firedStr r},{if r.early then 1 else 0},{renderLive mem cfg st}"
+  s!"{plusList r.gens},{plusList r.sgens},{firedStr r},{if r.early then 1 else 0},{renderLive mem cfg st}," ++
+  renderAttrs (respAttrs cfg st.now r)
 
 def runModel (mem : Bool) (cfg : Cfg) : St → List Op → List String
   | _, [] => []
@@ -110,25 +134,92 @@ def parseLive (s : String) : Except String (Option (List LiveItem)) := do
 def parsePlus (s : String) : Except String (List Bytes) :=
   if s == "-" then pure [] else (s.splitOn "+").mapM hx
 
+def parseAttrs (s : String) : Except String (Option CookieAttrs) := do
+  if s == "-" then return none
+  match s.splitOn "~" with
+  | [d, p, fl, ss, ex] =>
+    let some ssv := (match ss with
+      | "lax" => some SameSite.lax | "strict" => some .strict | "none" => some .none | "disabled" => some .disabled
+      | _ => none) | throw "bad attrs: samesite"
+    let exv ← (if ex == "none" then pure none else match ex.toInt? with
+      | some e => pure (some e) | none => throw "bad attrs: expires")
+    pure (some { domain := ← hx d, path := ← hx p, secure := fl == "10" || fl == "11", httpOnly := fl == "01" || fl == "11",
+                 sameSite := ssv, expires := exv })
+  | _ => throw "bad attrs"
+
 def parseObs (s : String) : Except String Obs := do
   match s.splitOn "," with
-  | [p, st, ck, sc, g, sg, fr, ea, lv] =>
+  | [p, st, ck, sc, g, sg, fr, ea, lv, atr] =>
     let ckv ← (if ck == "none" then pure none else if ck == "exp" then pure (some []) else do pure (some (← hx ck)))
     let scv ← (if sc == "none" then pure none else do pure (some (← hx sc)))
     pure { pass := p == "1", status := st.toNat?.getD 0, ck := ckv, sc := scv, gens := ← parsePlus g,
-           sgens := ← parsePlus sg, fired := fr != "-", early := ea == "1", live := ← parseLive lv }
+           sgens := ← parsePlus sg, fired := fr != "-", early := ea == "1", live := ← parseLive lv,
+           attrs := ← parseAttrs atr }
   | _ => throw "bad observation"
 
 def extOf : String → Option Ext
   | "header" => some .header | "form" => some .form | "query" => some .query
   | "param" => some .param | "cookie" => some .cookie | "custom" => some .custom | _ => none
 
-def trustedCharOK (c : Nat) : Bool :=
-  isAlpha c || isDigit c || c == 58 || c == 47 || c == 46 || c == 42 || c == 45 || c == 32 || c == 63 || c == 61
+/-- how the harness prints a `url.Parse` result -/
+def renderURL : Option C19.Url.URL → String
+  | none => "err"
+  | some u => s!"{toHex u.scheme}|{toHex u.host}|{toHex u.path}|{toHex u.rawQuery}|{toHex u.fragment}"
+
+/-- the recorded answers of the real `url.Parse`: (argument, rendered result) -/
+def parseFacts (s : String) : Option (List (Bytes × String)) :=
+  if s == "-" || s == "" then some [] else
+  (s.splitOn ";").mapM fun p => match p.splitOn "=" with
+    | [a, r] => (if a == "" then some [] else fromHexAux a.toList).map fun bs => (bs, r)
+    | _ => none
+
+/-- the strings `New` hands to `normalizeOrigin` -/
+def normalizeArgs (raw : List Bytes) : List Bytes :=
+  raw.map fun e =>
+    let o := trim e 32
+    match indexOf o (b "://*.") with
+    | some i => o.take (i + 3) ++ o.drop (i + 4)
+    | none => o
+
+/-- the statuses of the harness' custom ErrorHandler -/
+def ehCustom : Err → Nat
+  | .originInvalid => 461 | .originNoMatch => 462 | .refererNotFound => 463 | .refererInvalid => 464
+  | .refererNoMatch => 465 | .missing => 466 | .extractor => 467 | .tokenNotFound => 468 | .tokenInvalid => 469
+  | .storage => 470
+
+def cookieTextOK (s : Bytes) : Bool := s.all fun c => isAlpha c || isDigit c || c == 46 || c == 45
+def cookiePathOK (s : Bytes) : Bool :=
+  (s.all fun c => isAlpha c || isDigit c || c == 47) && (indexOf s (b "//")).isNone
+
+/-- the front field: ErrorHandler mode, Next, cookie fields -/
+def parseFront (s : String) : Except String ((Err → Nat) × Option (Req → Bool) × CookieCfg × String) := do
+  match (s.splitOn ";").map (·.splitOn "=") with
+  | [["eh", eh], ["next", nx], ["ck", ck]] =>
+    let ehf : Err → Nat ← (match eh with
+      | "d" => pure (fun (_ : Err) => (403 : Nat)) | "c" => pure ehCustom | "n" => pure (fun (_ : Err) => (200 : Nat))
+      | _ => throw "outside-domain: error-handler mode")
+    let nxf : Option (Req → Bool) ← (match nx with
+      | "0" => pure none | "1" => pure (some fun (q : Req) => q.skip)
+      | _ => throw "outside-domain: next flag")
+    match ck.splitOn "," with
+    | [fl, ss, dom, path] =>
+      let flag (c : Char) : Except String Bool :=
+        if c == '0' then pure false else if c == '1' then pure true else throw "outside-domain: cookie flags"
+      match fl.toList with
+      | [f1, f2, f3] =>
+        let cc : CookieCfg := { secure := ← flag f1, httpOnly := ← flag f2, sessionOnly := ← flag f3,
+                                sameSite := ← hx ss, domain := ← hx dom, path := ← hx path }
+        if !(cookieTextOK cc.sameSite && cookieTextOK cc.domain && cookiePathOK cc.path) then
+          throw "outside-domain: cookie field alphabet"
+        pure (ehf, nxf, cc, eh)
+      | _ => throw "outside-domain: cookie flags"
+    | _ => throw "outside-domain: cookie fields"
+  | _ => throw "outside-domain: front field"
 
 def handleCase (f : List String) : Except String Verdict := do
   match f with
-  | [id, be, ext, single, idle, trusted, ops, impl] =>
+  | [id, be, ext, single, idle, trusted, front, ops, uf, impl] =>
+    let (ehf, nxf, cc, ehm) ← parseFront front
     let some ext := extOf ext | throw "outside-domain: extractor"
     let (backend, mem) ← match be with
       | "st" => pure (Backend.storage, false) | "mem" => pure (Backend.storage, true)
@@ -137,15 +228,39 @@ def handleCase (f : List String) : Except String Verdict := do
     let some idle := idle.toNat? | throw "outside-domain: idle"
     if idle = 0 || idle > 3600 then throw "outside-domain: idle"
     let some raw := hexList trusted | throw "outside-domain: trusted"
-    if !(raw.all fun o => o.all trustedCharOK) then throw "outside-domain: trusted origin alphabet"
-    let opl ← (if ops == "-" then pure [] else (ops.splitOn ";").mapM (parseOp ext (be == "st" || be == "ss")))
+    let some facts := parseFacts uf | throw "outside-domain: urlFacts"
+    -- domain guard: `strings.ToLower` is modelled on ASCII text only
+    let args := normalizeArgs raw
+    if args.any (fun a => match C19.Url.parse a with | some u => !isAscii u.host | none => false) then
+      throw "outside-domain: non-ASCII host in TrustedOrigins"
+    let opb ← (if ops == "-" then pure [] else (ops.splitOn ";").mapM (parseOp ext (be == "st" || be == "ss")))
+    let opl := opb.map (·.1)
+    -- the transcription of net/url answers what the real `url.Parse` answered: on every recorded
+    -- string, on every string the constructor model normalises, on every Origin / Referer
+    let urlBad : Option String :=
+      match facts.find? (fun (a, r) => renderURL (C19.Url.parse a) != r) with
+      | some (a, _) => some s!"url-parse-differs:{toHexField a}:{renderURL (C19.Url.parse a)}"
+      | none =>
+        match args.find? (fun a => !(facts.any (·.1 == a))) with
+        | some a => some s!"url-fact-missing:{toHexField a}"
+        | none => opb.findSome? (·.2)
+    let obsM (s : String) : String := match urlBad with | some e => e | none => s
     let total := opl.foldl (fun acc o => match o with | .adv d => acc + d | _ => acc) 0
     if total > 80000 then throw "outside-domain: history longer than the session lifetime"
     match buildLoop raw [] [] with
     | none =>
-      pure { id := id, modelObs := "panic", implObs := impl, spec := none, tags := ["ctor-panic"] }
+      -- the constructor model refuses the configuration; nothing is served and the property is silent.
+      -- If the implementation served anyway, still judge what it served (entries that denote nothing
+      -- admit nothing).
+      let spec ← (if impl == "panic" then pure none else do
+        let obsl ← (if impl == "-" then pure [] else (impl.splitOn ";").mapM fun s =>
+          if s == "-" then pure none else if s == "panic" then pure (some panicObs) else (parseObs s).map some)
+        if obsl.length != opl.length then pure (some "observation-count")
+        else pure (specRun (specConfig backend ext (single == "1") idle raw nxf cc ehf) specInit opl obsl))
+      pure { id := id, modelObs := obsM "panic", implObs := impl, spec := spec, tags := ["ctor-panic"] }
     | some (os, ss) =>
-      let cfg : Cfg := { backend := backend, ext := ext, single := single == "1", idle := idle, origins := os, subs := ss }
+      let cfg : Cfg := { backend := backend, ext := ext, single := single == "1", idle := idle, origins := os, subs := ss,
+                         eh := ehf, next := nxf, cookie := cc }
       let mo := runModel mem cfg {} opl
       let modelObs := if mo.isEmpty then "-" else ";".intercalate mo
       let (spec, tags) ←
@@ -153,14 +268,11 @@ def handleCase (f : List String) : Except String Verdict := do
         else do
           let obsl ← (if impl == "-" then pure [] else (impl.splitOn ";").mapM fun s =>
             if s == "-" then pure none else if s == "panic" then pure (some panicObs) else (parseObs s).map some)
-          -- assumption of the theorems on the URL-parser parameter: a scheme never contains ':'
-          let badUrl := opl.any fun o => match o with
-            | .req q => q.ourl.scheme.contains 58 || q.rurl.scheme.contains 58
-            | _ => false
-          if badUrl then pure (some "assumption-url-scheme-without-colon", [])
-          else if obsl.length != opl.length then pure (some "observation-count", [])
-          else pure (specRun (specConfig backend ext (single == "1") idle raw) specInit opl obsl, specTags cfg opl obsl)
-      pure { id := id, modelObs := modelObs, implObs := impl, spec := spec, tags := [be, toString (repr ext)] ++ tags }
-  | _ => throw s!"outside-domain: expected 8 fields, got {f.length}"
+          if obsl.length != opl.length then pure (some "observation-count", [])
+          else pure (specRun (specConfig backend ext (single == "1") idle raw nxf cc ehf) specInit opl obsl, specTags cfg opl obsl)
+      let ot := (if ss.isEmpty then [] else ["cfg-wildcard"]) ++ (if os.isEmpty then [] else ["cfg-exact"]) ++
+        ["eh-" ++ ehm] ++ (if nxf.isSome then ["next-set"] else []) ++ (if cc == {} then [] else ["cookie-fields"])
+      pure { id := id, modelObs := obsM modelObs, implObs := impl, spec := spec, tags := [be, toString (repr ext)] ++ tags ++ ot }
+  | _ => throw s!"outside-domain: expected 10 fields, got {f.length}"
 
 def main : IO Unit := run handleCase
